@@ -182,6 +182,10 @@ pub fn run(ctx: &Ctx) {
     let n = gen::low_order_points().len();
     let cases: Vec<Case> = (0..n).flat_map(|idx| [Class::LowOrderRecipient { idx }, Class::LowOrderEphemeral { idx }, Class::LowOrderStatic { idx }, Class::SkipSs { low_order_static: Some(idx) }]).map(|class| Case { class, plain: Plain { len: 20, seed: 5 }, keys: ctx.seed, lens: vec![7], ws: WSched::all() }).collect();
     ctx.sse_vec("low_order_all", "all 14 encodings of small-order points x {recipient, ephemeral field, static field, static field with the ss token skipped}", cases, check);
+    // what the tool prints about the sender, with stderr a file and with stderr a terminal, for names up to 99 characters next to entries named like their beginning (shared with C12)
+    { use super::c12::{Case as C12, Req, FileKind, SenderPos, Sink, wiring_from}; let mut v = Vec::new();
+      for names in [1u8, 2] { for pos in [SenderPos::First, SenderPos::Last, SenderPos::OnlyWithRecipient] { v.push(C12 { req: Req::KeyDec(FileKind::Authentic), plain: Plain { len: 21, seed: ctx.seed + names as u64 }, chunks: vec![], pos, wirings: vec![wiring_from(0), wiring_from(2)], sink: Sink::Healthy, sel: ctx.seed, prior_out: None, env_decoy: 0, in_name: 0, typed: true, out_kinds: vec![], in_kinds: vec![], names }); } }
+      ctx.sse_vec("cli_sender_line_names", "decrypt of an authentic file with the sender's entry named in 99 characters and another entry named like its first 60, or among names that are beginnings of each other; password from the environment and typed at a terminal: the line names the sender's entry in full", v, super::c12::check); }
     ctx.pbt("sender_name_lookup_exact", ctx.n(30_000, 500_000), || (any::<u64>(), proptest::option::of(any::<u8>()), proptest::collection::vec((0u8..4, any::<u16>()), 0..4), 0u8..4).prop_map(|(sender, present_at, lookalikes, others)| Lookup { sender, present_at, lookalikes, others }), check_lookup);
     ctx.put("spec_written_honest_files", serde_json::json!({"accepted": SPEC_HONEST_ACCEPTED.load(Ordering::Relaxed), "rejected": SPEC_HONEST_REJECTED.load(Ordering::Relaxed), "note": "informational: shows the specification-built forgeries are rejected for their construction, not for a format mismatch"}));
 }
